@@ -85,6 +85,7 @@ type Ctx struct {
 	vmap     map[string]*Violation
 	capped   bool
 	journal  *os.File
+	skip     map[string]bool
 	Resume   int64 // cases with index < Resume were handled by an earlier incarnation of this worker
 	out      string
 }
@@ -99,6 +100,24 @@ func (c *Ctx) Begin(idx int64, cs any) {
 	b, _ := json.Marshal(map[string]any{"idx": idx, "case": cs})
 	c.journal.Truncate(0)
 	c.journal.WriteAt(b, 0)
+}
+
+// SkipSig: a case with this journal signature already killed an earlier incarnation of this worker
+// (stall / runtime abort); running more cases of the same signature would only repeat the wait.
+func (c *Ctx) SkipSig(sig string) bool {
+	if c.skip == nil {
+		c.skip = map[string]bool{}
+		for _, s := range strings.Split(os.Getenv("VERIF_SKIP_SIGS"), "\n") {
+			if s != "" {
+				c.skip[s] = true
+			}
+		}
+	}
+	if c.skip[sig] {
+		c.Count("cases_skipped_after_worker_death_with_same_signature", 1)
+		return true
+	}
+	return false
 }
 
 // Flush writes the partial result (called periodically by long enumerations with a journal).
@@ -517,12 +536,13 @@ func runParent(id, tier string) int {
 			defer func() { <-sem }()
 			out := jb.out
 			resume := int64(0)
+			var deadSigs []string
 			for attempt := 0; attempt < 40; attempt++ {
 				cmd := exec.Command(jb.bin, jb.cmd, id, tier, strconv.Itoa(jb.i), strconv.Itoa(n), out)
 				cmd.Env = append(os.Environ(), "GOMAXPROCS="+env("VERIF_WORKER_PROCS", "1"), "GORACE=halt_on_error=0 exitcode=0 history_size=3 log_path="+tmp+"/race"+strconv.Itoa(jb.i),
 					"VERIF_DEADLINE_UNIX="+strconv.FormatInt(deadline.Unix(), 10))
 				if resume > 0 {
-					cmd.Env = append(cmd.Env, "VERIF_RESUME="+strconv.FormatInt(resume, 10))
+					cmd.Env = append(cmd.Env, "VERIF_RESUME="+strconv.FormatInt(resume, 10), "VERIF_SKIP_SIGS="+strings.Join(deadSigs, "\n"))
 				}
 				var errBuf strings.Builder
 				cmd.Stdout = os.Stderr
@@ -565,6 +585,7 @@ func runParent(id, tier string) int {
 				v := &Violation{Sig: clause + "|journal", Clause: clause, Detail: fmt.Sprintf("worker %d died (exit %d: %s) while handling the journaled case", i, codes[i], what), Case: j.Case, Count: 1}
 				if ck.JournalSig != nil {
 					v.Sig = clause + "|" + ck.JournalSig(j.Case)
+					deadSigs = append(deadSigs, ck.JournalSig(j.Case))
 				}
 				extraMu.Lock()
 				extra = append(extra, v)
